@@ -16,7 +16,7 @@ TECHNIQUE = 'static analysis: snapshot provenance per UserComponent variant (clo
 CLAUSE = ('middleware chains are only appended to; a nested blueprint is queued, with a clone of the current chain, at the moment it is visited; '
           'ComponentDb computes every handler\'s chain as [noop] ++ that handler\'s own snapshot, by pushes in order, without a cache across '
           'handlers; the stage-function template evaluates pre-processors inside a labelled block that an early return `break`s out of (never '
-          '`return`), and emits the post-processors after that block.')
+          '`return`), and emits the post-processors after that block. Every write to handler_id2middleware_ids stores a value derived from the chain the registering function was handed and from no state kept across handlers; chains are never taken, replaced or swapped.')
 TRUSTED = ['the order of statements in the generated stage function is the order of the interpolated token streams']
 
 DB = A + 'components::db::ComponentDb::'
